@@ -46,6 +46,37 @@ fn handle(line: &str) -> String {
             outs.push(fbits(a.gain()).to_string());
             outs.join(",")
         }
+        // TimingLoop::new(samples_per_symbol, bandwidth, max_deviation), then input(sample, offset) for each "s:o" pair (bit patterns):
+        // "cfg spt,pmin,pmax,alpha,beta" (bits, read from the Debug rendering), then for every call the bits of the returned period
+        // and of the estimate's error (0 when there is none), then the bits of period_avg
+        ["tlrun", sps, bw, dev, ins] => {
+            let fb = |t: &str| f32::from_bits(t.parse::<u32>().unwrap());
+            let mut tl = verif::TimingLoop::new(fb(sps), fb(bw), fb(dev));
+            let field = |d: &str, k: &str| -> u32 {
+                let i = d.find(&format!("{}: ", k)).unwrap() + k.len() + 2;
+                let rest = &d[i..];
+                let j = rest.find(|c: char| c == ',' || c == ' ' || c == '}').unwrap();
+                fbits(rest[..j].parse::<f32>().unwrap())
+            };
+            let d = format!("{:?}", tl);
+            let mut outs: Vec<String> = vec![format!(
+                "{},{},{},{},{}",
+                field(&d, "samples_per_ted"),
+                field(&d, "period_min"),
+                field(&d, "period_max"),
+                field(&d, "loop_alpha"),
+                field(&d, "loop_beta")
+            )];
+            for t in ins.split(',').filter(|t| !t.is_empty()) {
+                let (a, b) = t.split_once(':').unwrap();
+                let (p, sym) = tl.input(fb(a), fb(b));
+                outs.push(fbits(p).to_string());
+                outs.push(sym.map(|e| fbits(e.err)).unwrap_or(0).to_string());
+            }
+            let d = format!("{:?}", tl);
+            outs.push(field(&d, "period_avg").to_string());
+            outs.join(",")
+        }
         ["vote2", a, b] => {
             let (v, e) = verif::bit_vote_detect(a.parse().unwrap(), b.parse().unwrap());
             format!("{} {}", v, e)
